@@ -6,6 +6,7 @@ import (
 	"go/token"
 	"go/types"
 	"os"
+	"sort"
 	"strings"
 )
 
@@ -18,7 +19,8 @@ func init() {
 			"R9.2: Stateful.Check succeeds only when the token matches the group, has an expiry that is not past, and is not before its not-before time; it returns the token's own username and permissions. " +
 			"R9.3: signed tokens are parsed with a required expiry; the key function rejects a missing algorithm, hands the header's alg and kid to ParseKeys and returns only its keys; ParseKeys skips keys declared for another algorithm; ParseKey admits only the fixed (kty, alg) pairs; JWT.Check succeeds only for an audience on this host (when configured) that matches the group. " +
 			"R9.4: in GetPermission the client-chosen username is used only when the token carries none and no configured user has that name; permissions are exactly those returned by the token's Check; the username is validated. " +
-			"R9.5: the global admin token is checked against the root scope, which only a root token covering subgroups matches.",
+			"R9.5: the global admin token is checked against the root scope, which only a root token covering subgroups matches. " +
+			"R9.6: the copy of a token that the store keeps and hands out (Stateful.Clone) takes every field from the same field of the original, so the scope, window, permissions and username checked are the ones written in the token.",
 		NotDecided: []string{
 			"URL parsing, signature verification and leeway arithmetic (golang-jwt)",
 			"that prefix matching equals component-wise matching for all strings (R9.1 is the necessary '/' boundary only)",
@@ -38,6 +40,128 @@ func runC09(c *Ctx) {
 	c09JWT(c)
 	c09GetPermission(c)
 	c09Global(c)
+	c.Rule("R9.6", "E4", "Stateful.Clone copies every field from itself", 9)
+	c09Clone(c)
+}
+
+// R9.6: the store keeps token.Clone() and Parse returns a Clone: the window,
+// scope, username and permissions that Check tests are the clone's.  Every
+// field of the clone must come from the same field of the receiver (directly,
+// through a copying call, or through a whole-struct copy `c := *token`).
+func c09Clone(c *Ctx) {
+	p := c.P
+	cl := p.Func("token", "Stateful", "Clone")
+	if cl == nil || cl.Decl == nil || cl.Decl.Recv == nil || len(cl.Decl.Recv.List) == 0 || len(cl.Decl.Recv.List[0].Names) == 0 {
+		c.Unknown("R9.6", "anchors", 0, "token.(*Stateful).Clone not found")
+		return
+	}
+	info := cl.Pkg.TypesInfo
+	recv := info.Defs[cl.Decl.Recv.List[0].Names[0]]
+	tn, _ := cl.Pkg.Types.Scope().Lookup("Stateful").(*types.TypeName)
+	if recv == nil || tn == nil {
+		c.Unknown("R9.6", "anchors", 0, "receiver / type Stateful not found")
+		return
+	}
+	st, _ := tn.Type().Underlying().(*types.Struct)
+	if st == nil {
+		c.Unknown("R9.6", "anchors", 0, "Stateful is not a struct")
+		return
+	}
+	// the fields of the receiver an expression reads
+	reads := func(e ast.Expr) map[string]bool {
+		out := map[string]bool{}
+		ast.Inspect(e, func(n ast.Node) bool {
+			if se, ok := n.(*ast.SelectorExpr); ok {
+				x := unparen(se.X)
+				if star, isStar := x.(*ast.StarExpr); isStar {
+					x = unparen(star.X)
+				}
+				if id, ok := x.(*ast.Ident); ok && info.Uses[id] == recv {
+					if sel := info.Selections[se]; sel != nil && sel.Kind() == types.FieldVal {
+						out[se.Sel.Name] = true
+					}
+				}
+			}
+			return true
+		})
+		return out
+	}
+	src := map[string]ast.Expr{} // field -> the expression it is given
+	whole := false               // a whole-struct copy of the receiver initialises the clone
+	dup := map[string]bool{}
+	ast.Inspect(cl.Body(), func(n ast.Node) bool {
+		switch x := n.(type) {
+		case *ast.CompositeLit:
+			if t := info.TypeOf(x); t != nil && types.Identical(t, tn.Type()) {
+				for _, el := range x.Elts {
+					kv, ok := el.(*ast.KeyValueExpr)
+					if !ok {
+						dup["(positional literal)"] = true
+						continue
+					}
+					if k, ok := kv.Key.(*ast.Ident); ok {
+						if src[k.Name] != nil {
+							dup[k.Name] = true
+						}
+						src[k.Name] = kv.Value
+					}
+				}
+			}
+		case *ast.AssignStmt:
+			for i, l := range x.Lhs {
+				if len(x.Rhs) != len(x.Lhs) {
+					continue
+				}
+				// c := *token
+				if star, ok := unparen(x.Rhs[i]).(*ast.StarExpr); ok {
+					if id, ok := unparen(star.X).(*ast.Ident); ok && info.Uses[id] == recv {
+						whole = true
+						continue
+					}
+				}
+				// c.F = E on a value of type Stateful that is not the receiver
+				if se, ok := unparen(l).(*ast.SelectorExpr); ok {
+					if sel := info.Selections[se]; sel != nil && sel.Kind() == types.FieldVal {
+						bt := sel.Recv()
+						if pt, isP := bt.(*types.Pointer); isP {
+							bt = pt.Elem()
+						}
+						if id, isId := unparen(se.X).(*ast.Ident); isId && info.Uses[id] != recv && types.Identical(bt, tn.Type()) {
+							src[se.Sel.Name] = x.Rhs[i]
+						}
+					}
+				}
+			}
+		}
+		return true
+	})
+	for i := 0; i < st.NumFields(); i++ {
+		f := st.Field(i).Name()
+		e := src[f]
+		ok, detail := true, ""
+		switch {
+		case dup[f]:
+			ok, detail = false, "given twice"
+		case e == nil && whole:
+			// copied with the whole struct
+		case e == nil:
+			ok, detail = false, "not copied"
+		default:
+			r := reads(e)
+			if !r[f] || len(r) != 1 {
+				var from []string
+				for k := range r {
+					from = append(from, k)
+				}
+				sort.Strings(from)
+				ok, detail = false, fmt.Sprintf("taken from %v", from)
+			}
+		}
+		c.Check(ok, "R9.6", "Clone: "+f, cl.Pos(), "copied from the same field of the original", "the stored copy of a token has its "+f+" "+detail+": the token that is checked is not the token that was written")
+	}
+	if len(dup) > 0 && dup["(positional literal)"] {
+		c.Bad("R9.6", "Clone: literal form", cl.Pos(), "positional composite literal: the field correspondence is not visible")
+	}
 }
 
 func endsWithSlash(info *types.Info, e ast.Expr) bool {
